@@ -92,6 +92,7 @@ func (e *Engine) lockModel(f *Frame, st *State, callee *ssa.Function, cc *ssa.Ca
 		return Val{T: types.NewTuple()}, true
 	}
 	e.assumed["sync.Mutex/RWMutex provide mutual exclusion"] = true
+	e.lockOps = true
 	switch {
 	case strings.HasSuffix(s, ".Lock") || strings.HasSuffix(s, ".RLock"):
 		if st.locks[key] {
@@ -99,6 +100,12 @@ func (e *Engine) lockModel(f *Frame, st *State, callee *ssa.Function, cc *ssa.Ca
 		}
 		e.lockLevelCheck(f, st, class, pos)
 		st.locks[key] = true
+		if f.parent == nil || true {
+			if e.acquired == nil {
+				e.acquired = map[string]bool{}
+			}
+			e.acquired[key] = true
+		}
 		e.lockAcquire(f, st, key, class, base, baseT, pos)
 	case strings.HasSuffix(s, ".Unlock") || strings.HasSuffix(s, ".RUnlock"):
 		if !st.locks[key] {
@@ -269,6 +276,8 @@ func (e *Engine) contractLocksPre(f *Frame, st *State, c *Contract, ctx *EvalCtx
 		class := a
 		if ok {
 			class = key[strings.Index(key, "|")+1:]
+			// the callee runs a critical section of its own: a later Lock() here is a re-acquisition
+			e.lockedOnce[key] = true
 			if st.locks[key] {
 				e.ob(f, "lock.reentrant", "callee "+cname+" acquires "+class+" which is already held (self-deadlock)", st.cond, "false", pos)
 			}
@@ -547,9 +556,9 @@ func (e *Engine) siteMatch(site string, kind, name string, ord int) bool {
 	nk := parts[1]
 	i := strings.LastIndex(nk, "#")
 	if i < 0 {
-		return nk == name
+		return nk == name || nk == stripTypeArgs(name)
 	}
-	if nk[:i] != name {
+	if nk[:i] != name && nk[:i] != stripTypeArgs(name) {
 		return false
 	}
 	return nk[i+1:] == "*" || nk[i+1:] == fmt.Sprint(ord)
@@ -588,6 +597,16 @@ func (e *Engine) siteCtx(f *Frame, st *State) *EvalCtx {
 	if f == top {
 		// names resolve at the current block
 		ctx.at = e.curBlock
+		// innermost loop containing the site: $k is the index of the current iteration of a range-index loop
+		var inner *Loop
+		for _, l := range top.loopOf[e.curBlock] {
+			if inner == nil || len(l.Blocks) < len(inner.Blocks) {
+				inner = l
+			}
+		}
+		if inner != nil && inner.Header != e.curBlock {
+			ctx.siteLoop = inner
+		}
 	} else {
 		ctx.noLocals = false
 		ctx.at = nil
